@@ -219,6 +219,7 @@ Proof.
   unfold build. destruct t as [docs|n d ents]; [discriminate|].
   destruct (accumulate nonstr (PDir n d ents)) as [m| | |]; cbn [bind]; try discriminate.
   destruct (mapM (hash_res nonstr) m) as [m1| | |]; cbn [bind]; try discriminate.
+  destruct (hash_check m1) as [[]| | |]; cbn [bind]; try discriminate.
   destruct pipe_rules as [rules| | |]; cbn [bind]; try discriminate.
   destruct (nameref_transform pipe_cs nonstr rules m1) as [m2| | |]; cbn [bind]; try discriminate.
   destruct (ignore_local m2) as [m2l| | |]; cbn [bind]; try discriminate.
@@ -426,6 +427,7 @@ Section Ids.
     unfold build. destruct t as [docs|n d ents]; [discriminate|].
     destruct (accumulate nonstr (PDir n d ents)) as [m| | |]; cbn [bind]; try discriminate.
     destruct (mapM (hash_res nonstr) m) as [m1| | |]; cbn [bind]; try discriminate.
+    destruct (hash_check m1) as [[]| | |]; cbn [bind]; try discriminate.
     destruct pipe_rules as [rules| | |]; cbn [bind]; try discriminate.
     destruct (nameref_transform pipe_cs nonstr rules m1) as [m2| | |]; cbn [bind]; try discriminate.
     destruct (ignore_local m2) as [m2l| | |]; cbn [bind]; try discriminate.
@@ -445,6 +447,7 @@ Section Ids.
     intros Ho. unfold build. destruct t as [docs|n d ents]; [discriminate|].
     destruct (accumulate nonstr (PDir n d ents)) as [m| | |] eqn:EA; cbn [bind]; try discriminate.
     destruct (mapM (hash_res nonstr) m) as [m1| | |] eqn:EH; cbn [bind]; try discriminate.
+    destruct (hash_check m1) as [[]| | |]; cbn [bind]; try discriminate.
     destruct pipe_rules as [rules| | |] eqn:ER0; cbn [bind]; try (intros X; discriminate X).
     assert (ER : effective_rules gen_gvk_order_first gen_gvk_order_last gen_nameref_raw = Ok rules)
       by (rewrite <- pipe_rules_eq; exact ER0).
@@ -787,3 +790,27 @@ Proof.
     intros x [<-|[]]. vm_compute. reflexivity.
   - eexists. split; [vm_compute; reflexivity|reflexivity].
 Qed.
+
+(* ---------- the comparator of the legacy sort (with or without the rank guard of /repo fc14842) is asymmetric ---------- *)
+From KV Require Base.StrOrder Res.LegacySortProofs.
+From Coq Require Import ZArith Lia.
+
+Lemma legacy_less_g_asym guarded first last a b :
+  LegacySort.legacy_less_g guarded first last a b = true -> LegacySort.legacy_less_g guarded first last b a = false.
+Proof.
+  unfold LegacySort.legacy_less_g. rewrite (LegacySortProofs.gvk_eqb_sym (LegacySort.id_gvk b)).
+  destruct (LegacySort.gvk_eqb (LegacySort.id_gvk a) (LegacySort.id_gvk b)); cbn [negb].
+  - apply StrOrder.sltb_asym.
+  - generalize (LegacySort.id_gvk a) (LegacySort.id_gvk b). clear a b. intros a b.
+    unfold LegacySort.gvk_less_than_g.
+    rewrite (Z.eqb_sym (LegacySort.type_order first last (LegacySort.g_kind b))).
+    destruct (Z.eqb (LegacySort.type_order first last (LegacySort.g_kind a))
+                    (LegacySort.type_order first last (LegacySort.g_kind b))) eqn:E; cbn [negb].
+    + apply Z.eqb_eq in E. rewrite <- E.
+      rewrite (andb_comm (String.eqb (LegacySort.g_kind b) _)), (orb_comm (String.eqb (LegacySort.g_group b) _)).
+      match goal with |- (if ?c then _ else _) = true -> _ => destruct c end; apply StrOrder.sltb_asym.
+    + intros H. apply Z.ltb_lt in H. apply Z.ltb_ge. lia.
+Qed.
+
+Lemma res_less_asym first last a b : res_less first last a b = true -> res_less first last b a = false.
+Proof. unfold res_less. apply legacy_less_g_asym. Qed.
